@@ -133,7 +133,7 @@ def targets():
 
 
 STAGES = [['C05_base.v'],
-          ['C05_mahony.v', 'C05_ekf.v', 'C05_compl.v'],
+          ['C05_mahony.v', 'C05_ekf.v', 'C05_compl.v', 'C05_scale.v', 'C05_scale_roleq_ned.v', 'C05_scale_roleq_enu.v'],
           ['C05.v', ('C05_refuted_ekf.v', {'finding': 'ekf.dhdq-refactored/not-derivative-of-h'}),
            ('C05_refuted_zero_gyro.v', {'finding': 'mahony/zero-gyro-frozen'})]]
 
@@ -308,6 +308,15 @@ def _gains(g):
     return out
 
 
+def _acc_scale(inp):
+    """accelerometer magnitude: a number, or 'k*G' = k times the gravity constant AQUA's adaptive gain compares with"""
+    v = inp.get('acc_scale', 9.81)
+    if isinstance(v, str) and v.endswith('*G'):
+        from ahrs.filters.aqua import GRAVITY
+        return float(v[:-2]) * float(GRAVITY)
+    return float(v)
+
+
 def run_filter(inp):
     """run one filter through its public constructor (the streaming update where the constructor cannot take q0) on a
     motionless history; returns the error history in degrees (total angle for MARG, tilt for IMU) and Q"""
@@ -324,8 +333,10 @@ def run_filter(inp):
     q0 = _initial(qstar, inp['ang'], inp.get('el', 0.0), inp.get('az', 0.0), g)
     rng = np.random.default_rng(int(inp.get('noise_seed', 0)))
     gyr = rng.uniform(-1, 1, (N, 3)) * float(inp.get('gyro_noise', 1e-3)) / math.sqrt(3)
-    acc = np.tile(a * 9.81, (N, 1))
-    mag = np.tile(m * 50.0, (N, 1)) if marg else None
+    # magnitudes are free in the property (exact IMAGES of the reference directions): m/s^2, g, raw counts, off-nominal
+    sa, sm = _acc_scale(inp), float(inp.get('mag_scale', 50.0))
+    acc = np.tile(a * sa, (N, 1))
+    mag = np.tile(m * sm, (N, 1)) if marg else None
     conj = False
     with warnings.catch_warnings(), np.errstate(all='ignore'):
         warnings.simplefilter('ignore')
@@ -350,8 +361,8 @@ def run_filter(inp):
             Qs = F.ROLEQ(gyr=gyr, acc=acc, mag=mag, q0=q0, frequency=freq, frame=frame, magnetic_ref=DIP, **gains).Q
         elif filt == 'fkf':     # no q0 parameter: sample 0 carries the initial attitude (ecompass of sample 0)
             acc, mag = acc.copy(), mag.copy()
-            acc[0] = cm.Rspec(q0).T @ g * 9.81
-            mag[0] = cm.Rspec(q0).T @ mref * 50.0
+            acc[0] = cm.Rspec(q0).T @ g * sa
+            mag[0] = cm.Rspec(q0).T @ mref * sm
             Qs = F.FKF(gyr=gyr, acc=acc, mag=mag, frequency=freq, **gains).Q
         elif filt == 'complementary':
             w0 = np.array(ahrs.Quaternion(q0).to_angles())
@@ -455,7 +466,29 @@ def o_jacobian(inp):
     return None
 
 
-ORACLES = {'converge': o_converge, 'zero_gyro': o_zero_gyro, 'jacobian': o_jacobian}
+def o_scale(inp):
+    """the measurements are images of reference DIRECTIONS: multiplying the accelerometer (and magnetometer) history by a
+    positive constant must not change the estimates of any filter that normalises its inputs (all but AQUA adaptive=True)"""
+    from vlib.core import call_outcome
+    base = dict(inp, acc_scale=1.0, mag_scale=1.0)
+    r0 = call_outcome(run_filter, base)
+    if r0[0] == 'raise' or r0[1][0] is None:
+        return None                     # not this oracle's business (reported by 'converge')
+    nm = _name(inp)
+    for sa, sm in inp['scales']:
+        r = call_outcome(run_filter, dict(inp, acc_scale=sa, mag_scale=sm))
+        if r[0] == 'raise':
+            return {'tag': f'{nm}/scaled-raises-{r[1]}', 'observed': list(r[1:]), 'note': f'acc x {sa}, mag x {sm}'}
+        if r[1][0] is None:
+            return {'tag': f'{nm}/scaled-nonfinite', 'observed': [sa, sm]}
+        d = cm.maxabs(r[1][1], r0[1][1])
+        if d > 1e-7:
+            return {'tag': f'{nm}/depends-on-magnitude', 'observed': {'acc_scale': sa, 'mag_scale': sm, 'max |dQ|': d},
+                    'expected': 'same quaternions (<= 1e-7) as with unit-norm measurements'}
+    return None
+
+
+ORACLES = {'converge': o_converge, 'zero_gyro': o_zero_gyro, 'jacobian': o_jacobian, 'scale': o_scale}
 
 # configuration table.  Each row: filter, marg, frame, gains, frequency, N, settle, tol (deg), slack (deg), tier.
 # Calibration (unchanged tree, 2 attitudes x {175,120,45} deg x {tilt, mixed, heading}, noise 1e-3): `settle` >= 1.5 x the
@@ -491,15 +524,31 @@ CONFIGS = [
     ('fkf',           1, 'NED', {},                                          10.0, 4200, 3800, 0.25, 0.5, 'q'),   # floor 3.7e-2, settle 2509 (tol .2)
     ('fkf',           1, 'NED', {'sigma_g': 1.0, 'sigma_a': 0.001, 'sigma_m': 0.001, 'Pk': 1.0}, 100.0, 3600, 3300, 0.25, 0.5, 'q'),   # 24 random runs: max .31 at 1650, .083 at 2475, .021 at 3300
     ('fkf',           1, 'NED', {'sigma_g': 1.0, 'sigma_a': 0.01, 'sigma_m': 0.01}, 100.0, 5200, 4700, 0.25, 0.5, 't'),   # floor 6.3e-3, settle 3083
+    # --- round 2: magnitudes over decades / off-nominal, sampling rates 10/25/100 Hz, larger gains ------------------------
+    ('mahony',        0, 'NED', {'k_P': 25.0, 'k_I': 0.3},                  100.0, 2600, 2200, 0.4,  0.5, 'q', {'acc_scale': 9.81}),   # floor .073, settle 1439 (tol .05)
+    ('mahony',        0, 'NED', {'k_P': 3.0, 'k_I': 0.3},                    10.0, 1000, 750,  0.05, 0.5, 'q', {'acc_scale': 9.81}),   # floor 8.6e-3, settle 490
+    ('mahony',        0, 'NED', {},                                          25.0, 1500, 1200, 0.06, 0.5, 'q', {'acc_scale': 1000.0}),   # floor .0103, settle 431
+    ('mahony',        1, 'NED', {'k_P': 10.0, 'k_I': 0.3},                   25.0, 4800, 4300, 0.15, 0.5, 'q', {'acc_scale': 1000.0, 'mag_scale': 4.5e4}),   # floor .028, settle 2850
+    ('madgwick',      0, 'NED', {'gain': 0.5},                               25.0, 1200, 900,  12.0, 0.5, 'q', {'acc_scale': 1.0}),   # floor 2.29 (beta*dt = 1.15 deg chatter), settle 332
+    ('madgwick',      1, 'NED', {'gain': 0.5},                               25.0, 1200, 900,  12.0, 0.5, 'q', {'acc_scale': 1000.0, 'mag_scale': 0.45}),   # floor 2.14, settle 445
+    ('aqua',          0, 'NED', {'adaptive': True},                         100.0, 1500, 1250, 0.05, 0.5, 'q', {'acc_scale': '1.15*G'}),
+    ('aqua',          1, 'NED', {'adaptive': True},                         100.0, 1900, 1650, 0.05, 0.5, 'q', {'acc_scale': '0.85*G', 'mag_scale': 0.45}),
+    ('aqua',          1, 'ENU', {'adaptive': True, 'beta': 0.03},            25.0, 1900, 1650, 0.08, 0.5, 'q', {'acc_scale': 9.81}),   # floor .0148, settle 339
+    ('ekf',           0, 'ENU', {},                                          25.0, 900,  600,  0.06, 0.5, 'q', {'acc_scale': 1.0}),   # floor .0117, settle 216
+    ('ekf',           1, 'ENU', {'noises': [0.01, 0.0025, 0.0025]},          10.0, 1500, 1200, 0.15, 12.0, 'q', {'acc_scale': 1000.0, 'mag_scale': 4.5e4}),
+    ('roleq',         1, 'ENU', {'weights': [0.7, 0.3]},                     10.0, 700,  500,  0.1,  0.5, 'q', {'acc_scale': 1.0, 'mag_scale': 4.5e4}),   # floor .0162, settle 297 (tol .02)
+    ('complementary', 1, 'NED', {'gain': 0.98},                              25.0, 1500, 1200, 0.1,  0.5, 'q', {'acc_scale': 1000.0, 'mag_scale': 0.45}),   # floor .0185, settle 424
+    ('fkf',           1, 'NED', {'sigma_g': 1.0, 'sigma_a': 0.001, 'sigma_m': 0.001, 'Pk': 1.0}, 25.0, 5000, 4500, 0.25, 0.5, 't', {'acc_scale': 1.0, 'mag_scale': 4.5e4}),   # floor .025, settle 2991
     ('ukf',           0, 'NED', {},                                         100.0, 2000, 1600, 5.0,  0.5, 'q'),   # UKF: see known findings
 ]
 
 
 def _cfg_inp(row, qstar, ang, el, az, seed):
-    filt, marg, frame, gains, freq, N, settle, tol, slack, _ = row
+    filt, marg, frame, gains, freq, N, settle, tol, slack, _ = row[:10]
+    extra = row[10] if len(row) > 10 else {}
     return {'filter': filt, 'marg': bool(marg), 'frame': frame, 'gains': gains, 'frequency': freq, 'N': N,
             'settle': settle, 'tol': tol, 'slack': slack, 'qstar': [float(x) for x in qstar], 'ang': float(ang),
-            'el': float(el), 'az': float(az), 'noise_seed': int(seed), 'gyro_noise': 1e-3}
+            'el': float(el), 'az': float(az), 'noise_seed': int(seed), 'gyro_noise': 1e-3, **extra}
 
 
 def _attitudes(rng, n):
@@ -534,11 +583,22 @@ def search(ctx, scale):
                       nontrivial_key=(ci, tuple(np.round(q, 6)), ang, el, round(az, 3)) if ang >= 5 else None)
     # exact-zero gyroscope: one run per filter and mode
     for ci, row in enumerate(CONFIGS):
-        if row[3] or row[9] == 't':
+        if row[3] or row[9] == 't' or len(row) > 10:
             continue
         inp = _cfg_inp(row, atts[4 + ci % 2], 30.0, 45.0, 100.0, seed=7)
         inp['N'] = min(inp['N'], 1500) if row[0] not in ('madgwick',) else inp['N']
         ctx.check('zero_gyro', inp, o_zero_gyro(inp), nontrivial_key=('zero', ci))
+    # magnitude independence: 40 samples, acc and mag scaled over decades (m/s^2, raw counts, milli-units, off-nominal 0.85/1.15)
+    done = set()
+    for ci, row in enumerate(CONFIGS):
+        key = (row[0], row[1], row[2])
+        if key in done or row[3].get('adaptive') or (row[9] == 't' and not thorough):
+            continue
+        done.add(key)
+        inp = _cfg_inp(row[:10], atts[4 + ci % 4], 60.0, 45.0, 10.0 * ci, seed=11 + ci)
+        inp['N'] = 40
+        inp['scales'] = [[9.81, 50.0], [1000.0, 4.5e4], [1e-3, 0.45], [0.85, 1.15], [1.15, 0.85]]
+        ctx.check('scale', inp, o_scale(inp), nontrivial_key=('scale',) + key)
     # Jacobians numerically (both modes, both frames)
     for k in range(4 * scale):
         q = cm.rand_unit_quat(rng)
